@@ -70,7 +70,12 @@ def accepts (impl : String) (c : Case) : Bool :=
   | _ => false
 
 def handle (line : String) : String :=
-  match line.splitOn " " with
+  -- `sync@<prior restarts>@<minutes>`: the same discovery, wherever the syncer stands in its retry window
+  let toks := line.splitOn " "
+  let toks := match toks with
+    | k :: rest => if k.startsWith "sync@" then "sync" :: rest else toks
+    | [] => toks
+  match toks with
   | ["topo", hs, sc] =>
     match parseCase hs sc with
     | some c => render (predict c)
